@@ -90,6 +90,8 @@ def _check_main(run, P):
     run.do(_step, run, P)
     run.do(_events, run, P)
     run.do(_binding, run, P)
+    from . import c09 as _c09
+    run.do(_c09.resolve_rule, run, P, "C01.binding")
     run.do(_fields, run, P)
     run.do(_store, run, P)
     run.do(_persist, run, P)
